@@ -30,8 +30,16 @@ RULE = ("generated worksheets (harness-side mock of an openpyxl worksheet): 1-5 
         "first, derived first, random order; unrelated classes), two generators advanced in turn (ladder readings in progress); "
         "between the readings the caller edits in place values it has been given (list.append, set.add, dict[k]=v, d[k].append on "
         "cell_list / cell_set / CellRangeDict / CellRangeSet / callable-default values, all of them or a subset, each with its own "
-        "marker); every object of every reading is observed when produced and again at the end of the session.  Non-trivial = "
-        "distinct case that yields at least one object (session: at least two readings that yield an object).")
+        "marker); every object of every reading is observed when produced and again at the end of the session.  "
+        "Several object classes per table (cases k='multi', model Model.read_table_m / Run.ReadM): XlsTableReader(r1, ..., rn) with "
+        "0-3 rule sets (mostly 2-3), disjoint and overlapping columns (two objects reading the same column, the same XlsObjReadRules "
+        "object twice), ranged attributes in one or in several of them, the unknown columns as one run, scattered between the known "
+        "columns (a column of one object inside the would-be range of another) or split in two, ladder sheets, both end rules, wide "
+        "sheets, converter objects shared between the rule sets or not; every tuple is observed when produced, then the caller edits "
+        "values of the objects (as in a session) and every object is observed again.  All single and multi readings: worksheet "
+        "titles vary (with spaces, quotes, brackets), str(obj) and get_attr_origin(..., incl_ws=True) (every attribute; every key, "
+        "not strict; an unknown attribute) are observed; float cells (2.5, 1.0 == True, 0.0 == False, 1e16, a float title).  "
+        "Non-trivial = distinct case that yields at least one object (session: at least two readings that yield an object).")
 TRUSTED_BASE = [
     "gen/C18_Consts.v: CellBool/_CellReader value sets, origin markers, the 'blank first' and '*' literals are read from "
     "ak/xlsread.py by harness/props/c18.py:gen_consts (ast, fail-closed); the same extractor insists that get_attr_origin's "
@@ -42,15 +50,18 @@ TRUSTED_BASE = [
     "insertion order (compared on every run by the correspondence check)",
     "the harness-side mock worksheet yields rectangular rows from A1 with openpyxl coordinates (column letters + 1-based row)",
     "sessions: python's list.append / set.add / dict item assignment as mirrored by Session.mut_value; XlsObject.make_objects_map "
-    "is the reference for the map entry points (read_map / read_table_make_map must equal make_objects_map of the objects of the "
-    "modelled list reading of the same sheet: oracle signature map-reading, not modelled)",
+    "is NOT trusted any more: the map entry points (read_map / read_table_make_map) are compared with the harness's own "
+    "_ref_objects_map of the objects of the modelled list reading of the same sheet (oracle signature map-reading, not modelled)",
+    "float (and other) cell values enter the model as Base.COther (str(v), the int v equals): python's str() of a float and "
+    "float == int are computed by the harness",
+    "the digest of an object's observation is a polynomial hash modulo 2^61 (Run.hash_sx, mirrored in c18.py)",
 ]
 ASSUMPTIONS = [
-    "cell values are None, str, int or bool (no float/datetime cells)",
+    "cell values are None, str, int, bool or float (generated); any other value (datetime, Decimal) enters the model the same way "
+    "(Base.COther: python's str(v) and the int it equals are passed in by the harness) but is not generated",
     "worksheet rows are rectangular and start at A1 (as openpyxl's iter_rows() yields them); ragged rows are modelled "
     "(IndexError) but not claimed",
-    "default values are plain immutable values, or callables returning them or a fresh list; one object class per table "
-    "(iter_table/read_table/TableReader)",
+    "default values are plain immutable values, or callables returning them or a fresh list",
     "an XlsTableReader object is used for one reading (a second iter_table on the same object fails its own assertion: "
     "_ObjScrCellsMap.defaults_factories is never reset)",
 ]
@@ -59,8 +70,10 @@ MODELLED = ("ak/xlsread.py: _CellReader/CellStr/CellInt/CellBool/CellList/CellSe
             "_ObjScrCellsMap.bind_titles_row/cells_from_row, XlsTableReader.iter_table; sessions (Session.v): a reading is a function "
             "of the sheet and of the rules of THAT call (for TableReader.iter_xls/read_list: the ATTR_RULES, _ATTRS, _NUM_ID_ATTRS, STOP_ON "
             "and LADDER_FORMAT of the class that was asked, own or inherited), in-place edits of a produced value change that value only; "
-            "not modelled: incl_ws prefix, make_objects_map/ensure_equal (reference of the map-reading oracle clause), several "
-            "object classes per table")
+            "several object classes per table (XlsTableReader(r1, ..., rn).iter_table: Model.read_table_m, the known column names are "
+            "the union over all rule sets); incl_ws and str(obj) up to the logic id (Model.get_attr_origin_ws, obj_head); "
+            "not modelled: make_objects_map/ensure_equal (oracle clause map-reading against the harness's own reference), logic_id "
+            "(oracle clause logic-id)")
 
 
 class ExtractError(Exception):
@@ -381,7 +394,7 @@ def _cell_for(rng, cv, p_blank=0.12, p_bad=0.03):
     bad = r < p_blank + p_bad
     if k == "int":
         if bad:
-            return rng.choice(["12", "x", " 5"])
+            return rng.choice(["12", "x", " 5", 2.5, 3.0])
         return rng.choice([0, 1, 2, 7, 10, -3, 2019, 2020, 123456789012, True, False]) if rng.random() < 0.3 else rng.randint(-50, 3000)
     if k == "bool":
         if bad:
@@ -389,10 +402,12 @@ def _cell_for(rng, cv, p_blank=0.12, p_bad=0.03):
         tv = cv["true"] if "true" in cv else ["v", 1, "1", True, "True"]
         fv = cv["false"] if "false" in cv else [None, "", False, "False", 0]
         pool = tv if (rng.random() < 0.5 and tv) or not fv else fv
+        if rng.random() < 0.05:
+            return rng.choice([1.0, 0.0, -0.0])       # float cells: 1.0 == 1 == True, 0.0 == False
         return rng.choice(pool) if pool else "yes"
     if k in ("list", "set"):
         if bad:
-            return rng.choice([5, True])
+            return rng.choice([5, True, 1.5])
         n = rng.randint(0, 4)
         items = [_pad(rng, _word(rng)) if rng.random() < 0.85 else "" for _ in range(n)]
         out = ""
@@ -403,7 +418,7 @@ def _cell_for(rng, cv, p_blank=0.12, p_bad=0.03):
         return out
     # str
     if rng.random() < 0.2:
-        return rng.choice([5, -12, True, False, 0, 10 ** 15])
+        return rng.choice([5, -12, True, False, 0, 10 ** 15, 2.5, -0.5, 1e16, 0.0, 3.0])
     return _pad(rng, _word(rng))
 
 
@@ -423,7 +438,7 @@ def _default(rng):
 
 
 TITLE_POOL = ["Id", "Name", "Status", "Year", "Month", "Day", "Person's name", "Event Id", "kind", "2020", "x y", "Ünï", "N°"]
-UNKNOWN_POOL = ["math", "science", "history", "cs", "art", "pe", "bio", "u1", "u2", "q 1", "42", "zz"]
+UNKNOWN_POOL = ["math", "science", "history", "cs", "art", "pe", "bio", "u1", "u2", "q 1", "42", "zz", "1.5"]
 
 
 def gen_sheet_case(rng, wide=False, force=None):
@@ -551,6 +566,8 @@ def _finish_sheet(rng, cols, force):
             return t
         if t.isdigit() and rng.random() < 0.5:
             return int(t)
+        if t == "1.5" and rng.random() < 0.5:
+            return 1.5          # a float title cell: the column is titled str(1.5)
         return _pad(rng, t)
     title_row = [title_cell(t) for t, _ in cols]
 
@@ -627,16 +644,18 @@ def gen_cases(rng, tier):
             cases.append(c)
     # several object classes read from one table (XlsTableReader(r1, ..., rn)): 2-3 rule sets, overlapping / disjoint columns,
     # ranged attributes in one or several of them, the columns of one object next to / inside the would-be range of another
+    multi = []
     for i in range(1500 if big else 170):
         force = None
         if i % 5 == 0:
             force = {"ladder": True, "stop": rng.choice(["blank all", "blank all", "blank first"])}
         elif i % 5 == 1:
             force = {"ladder": False, "stop": rng.choice(["blank all", "blank first"])}
-        cases.append(gen_multi_case(rng, wide=(i % 17 == 0), force=force))
+        multi.append(gen_multi_case(rng, wide=(i % 17 == 0), force=force))
     # sessions: several readings in one process, class hierarchies with the TableReader mixin, edits of produced values
     sess = [gen_session_case(rng, "hier" if i % 2 else "alias") for i in range(800 if big else 120)]
-    # spread evenly (a session costs about three single readings: keeps the Coq shards balanced)
+    # spread evenly (a session costs about three single readings, a multi reading two: keeps the Coq shards balanced)
+    sess = [x for pair in zip(sess, multi) for x in pair] + sess[len(multi):] + multi[len(sess):]
     stride = max(1, len(cases) // len(sess))
     out = []
     for i, c in enumerate(cases):
@@ -824,6 +843,10 @@ def _c_cval(v):
         return f"(CBool {SX.cbool(v)})"
     if isinstance(v, int):
         return f"(CInt {SX.cZ(v)})"
+    if isinstance(v, float):
+        # any other cell value: python's str(v), and the int it is == to, are passed to the model (Base.COther)
+        num = f"(Some {SX.cZ(int(v))})" if v == int(v) else "None"
+        return f"(COther {SX.cstr(str(v))} {num})"
     return f"(CStr {SX.cstr(v)})"
 
 
@@ -915,15 +938,15 @@ H_B = 1000003
 
 
 def hash_sx(x, h=1):
-    """mirror of C18/Run.v hash_sx on a nested list of ints"""
+    """mirror of C18/Run.v hash_sx on a nested list of ints (polynomial digest modulo 2^61, reduction by bit mask)"""
     if isinstance(x, bool):
         x = 1 if x else 0
     if isinstance(x, int):
-        return (h * H_B + (x % H_P) + 7) % H_P
-    h = (h * H_B + 3) % H_P
+        return (h * H_B + x + 7) & H_P
+    h = (h * H_B + 3) & H_P
     for e in x:
         h = hash_sx(e, h)
-    return (h * H_B + 5) % H_P
+    return (h * H_B + 5) & H_P
 
 
 def obj_sx(it, rules, ws=False):
@@ -1514,6 +1537,11 @@ def _check_classes(case):
             raise ValueError("ill-formed session: attribute without rule")
 
 
+def _sess_title(ws_id):
+    """worksheet titles of a session: the sheets of one process have different names (one with a space: quoted)"""
+    return "sheet1" if ws_id == 0 else f"sheet {ws_id}" if ws_id % 2 else f"s{ws_id}"
+
+
 def _sess_reads(case):
     return [st for st in case["steps"] if st["op"] == "read"]
 
@@ -1597,7 +1625,7 @@ class _Session:
                 for cell, v in zip(cells, vals):
                     cell.value = v
             return ws
-        ws = _Worksheet("sheet1", rows)
+        ws = _Worksheet(_sess_title(st["ws"]), rows)
         self.sheets[st["ws"]] = ws
         return ws
 
@@ -1796,7 +1824,7 @@ def _map_check(S, rec):
     if rec["err"] is not None and st["via"] in WHOLE_VIAS:
         return None         # the objects before the exception were not seen
     try:
-        want = ["ok", cls.make_objects_map(objs_then_error())]
+        want = ["ok", _ref_objects_map(objs_then_error(), names)]
     except ReadFailed:
         want = ["err", rec["err"]]
     except BaseException as e:  # noqa
@@ -1829,6 +1857,23 @@ def _map_check(S, rec):
                 for kk in list(v):
                     _apply_mut(g[k], name, kk, MARK + "map")
     return None
+
+
+def _ref_objects_map(objs, names):
+    """what 'a map of the objects by logic id' means (XlsObject.make_objects_map, written independently): rows without
+    object are skipped; the key is the object's logic id (python dict semantics: TypeError for an unhashable id); a later
+    object with the same id must have equal attribute values (ValueError otherwise) and takes the place of the earlier one"""
+    d = {}
+    for o in objs:
+        if o is None:
+            continue
+        key = o.logic_id
+        if key in d:
+            for name in names:
+                if getattr(o, name) != getattr(d[key], name):
+                    raise ValueError(f"objects with the same logic id {key!r} differ in {name}")
+        d[key] = o
+    return d
 
 
 def _canon_key(k):
@@ -1912,7 +1957,7 @@ def _oracle_session(case, obs):
         # (a) the property, on what the reading produced (as observed when it was produced)
         if not (st["via"] in WHOLE_VIAS and rd["err"] is not None):
             pc = {"k": "read", "rows": st["rows"], "rules": rules, "nid": nid, "stop": stop, "ladder": ladder,
-                  "qkeys": st["qkeys"], "cname": f"XlC{st['cls']}"}
+                  "qkeys": st["qkeys"], "cname": f"XlC{st['cls']}", "title": _sess_title(st["ws"])}
             for sig, msg in oracle(pc, {"items": rd["items"], "err": rd["err"]}):
                 out.append((sig, f"{tag}: {msg}"))
         # (b) objects of the class that was asked to read
@@ -2335,9 +2380,11 @@ def gen_multi_case(rng, wide=False, force=None):
     want_ranges = rng.choice([0, 1, 1, 1, 2, 2, 3])
     for oi in range(n_objs):
         if objs and rng.random() < 0.07:
-            # the same rules (even the same XlsObjReadRules object) a second time
+            # the same XlsObjReadRules object (same class, same rules) a second time: XlsTableReader(rr, rr)
             k = rng.randrange(len(objs))
-            objs.append({"name": f"XlM{oi}", "rules": [dict(r) for r in objs[k]["rules"]], "nid": objs[k]["nid"], "same_as": k})
+            while "same_as" in objs[k]:
+                k = objs[k]["same_as"]
+            objs.append({"name": objs[k]["name"], "rules": [dict(r) for r in objs[k]["rules"]], "nid": objs[k]["nid"], "same_as": k})
             continue
         n_attrs = rng.randint(1, 4)
         rules = []
@@ -2474,19 +2521,20 @@ def _read_multi(xl, case, rows, ladder, full):
             convs[key] = _mk_conv(xl, cv)
         return convs[key]
     names = [[f"a{i}" for i in range(len(ob["rules"]))] for ob in objs]
-    tuples, produced, err = [], [], None
+    tuples, produced, raw, err = [], [], [], None
     shape_ok = cls_ok = True
     try:
         classes, rrs = [], []
         for oi, ob in enumerate(objs):
+            if "same_as" in ob:
+                classes.append(classes[ob["same_as"]])
+                rrs.append(rrs[ob["same_as"]])
+                continue
             classes.append(type(ob["name"], (xl.XlsObject,), {"_ATTRS": names[oi], "_NUM_ID_ATTRS": ob["nid"]}))
-            if "same_as" in ob and case.get("share_conv"):
-                rrs.append(xl.XlsObjReadRules(classes[oi], rrs[ob["same_as"]].attrs_rules and
-                                              _mk_rules_with(xl, ob["rules"], conv)))
-            else:
-                rrs.append(xl.XlsObjReadRules(classes[oi], _mk_rules_with(xl, ob["rules"], conv)))
+            rrs.append(xl.XlsObjReadRules(classes[oi], _mk_rules_with(xl, ob["rules"], conv)))
         reader = xl.XlsTableReader(*rrs)
         for tup in reader.iter_table(ws, stop_on=case["stop"], ladder_format=ladder):
+            raw.append(tup)         # the caller keeps what it was given: list(reader.iter_table(ws))
             if not isinstance(tup, (list, tuple)) or len(tup) != n:
                 shape_ok = False
                 tup = list(tup)[:n] if isinstance(tup, (list, tuple)) else []
@@ -2501,6 +2549,9 @@ def _read_multi(xl, case, rows, ladder, full):
             raise
         err = SX.exc_name(e)
     out = {"n": len(tuples), "tuples": tuples, "err": err, "shape_ok": shape_ok, "cls_ok": cls_ok}
+    # the tuples the caller was given still hold the objects they held when they were yielded (no container re-used)
+    out["kept_ok"] = shape_ok and len({id(t) for t in raw}) == len(raw) and all(
+        len(t) == len(p_) and all(a is b for a, b in zip(t, p_)) for t, p_ in zip(raw, produced))
     if full:
         flat = [(oi, o) for tup in produced for oi, o in enumerate(tup)]
         for m in case.get("muts", []):
@@ -2558,7 +2609,7 @@ def _expected_multi(case, obs):
         else:
             hs.append(hash_sx(obj_sx(it, case["objs"][j % n]["rules"], ws=True)))
     e = [] if obs["err"] is None else [SX.ERR_CODES.get(obs["err"], SX.ERR_OTHER)]
-    return SX.dumps([obs["n"] if obs["shape_ok"] else -1, [hs, e]])
+    return SX.dumps([obs["n"] if obs["shape_ok"] and obs.get("kept_ok", True) else -1, [hs, e]])
 
 
 def _oracle_multi(case, obs):
@@ -2573,6 +2624,9 @@ def _oracle_multi(case, obs):
         out.append(("tuple-shape", f"a table row did not yield a sequence of {n} items (one per rule set)"))
     if not obs["cls_ok"]:
         out.append(("object-class", "the i-th item of a tuple is not an instance of the class of the i-th rule set"))
+    if obs["shape_ok"] and not obs.get("kept_ok", True):
+        out.append(("tuple-shared", "the tuples kept by the caller (list(reader.iter_table(ws))) do not hold the objects they "
+                                    "held when they were yielded: a container is re-used between rows"))
     err = obs["err"]
     # (a) the property for every object class, with the column names claimed by ALL rule sets as the known ones
     for i in range(n):
@@ -2646,12 +2700,21 @@ def _shrink_multi(case):
 TECHNIQUE = ("Coq proofs (structural induction over rows / columns, invariants of the row loop, refinement of the ladder "
              "loop to a fill-down specification) on a hand-written Gallina model + per-run correspondence check "
              "(vm_compute vs implementation on generated worksheets) + constants regenerated from the source")
-LEVEL_TEXT = ("Full (model level, all sheets / rule sets, unbounded rows and columns): origin_consistent (every attribute of every "
-              "produced object is the conversion of the sheet cell(s) at its recorded origin, in a column with the declared / "
-              "detected title, or the declared default with the marker origin), origin_reported + range_key_consistent "
-              "(get_attr_origin renders exactly the recorded origin, per key too), rows_in_order (one item per data row, in order, "
+LEVEL_TEXT = ("Full (model level, all sheets / rule sets, unbounded rows and columns; stated for XlsTableReader with ANY number of rule "
+              "sets = object classes per table row, Model.read_table_m; the module-level iter_table / read_table / TableReader is the "
+              "reader with one rule set, unpacked -- single_is_multi -- and origin_consistent_single, rows_in_order_single are derived "
+              "as the one-element special case): origin_consistent (every attribute of every object of every tuple "
+              "is the conversion of the sheet cell(s) at its recorded origin, in a column with the declared / "
+              "detected title, or the declared default with the marker origin; the range group is detected against the column names "
+              "claimed by ALL rule sets), objects_independent (the i-th items of the tuples are exactly what the i-th rule set reads on "
+              "its own when the names claimed by all rule sets count as known; the reader stops where the first rule set cannot be "
+              "read, with that exception), origin_reported + origin_reported_ws + range_key_consistent "
+              "(get_attr_origin renders exactly the recorded origin, per key too; incl_ws only adds the sheet name), rows_in_order "
+              "(one tuple per data row, one item per rule set, in order, "
               "up to the end row of the chosen rule; origins lie in the object's row, ladder: between the first data row and the "
-              "object's row), range_detect + range_columns (the range group is the first maximal run of titled unknown columns), "
+              "object's row), range_detect + range_known_union + range_columns (the range group is the first maximal run of titled "
+              "columns that no rule set names), ladder_equiv_multi / ladder_prefix_multi / ladder_origins_multi (the ladder theorems "
+              "on tuples), "
               "range_text_extremes + range_text (the text of a whole ranged attribute is '<leftmost source cell>:<rightmost source "
               "cell>' for any number of columns -- A..Z, AA.. are proved to be ordered by the sort key -- and for source cells of "
               "different rows as in a ladder reading), ladder_origins (ladder: every origin, single-cell or per key of a ranged "
@@ -2670,9 +2733,10 @@ LEVEL_TEXT = ("Full (model level, all sheets / rule sets, unbounded rows and col
               "and is also compared in-process with iter_table called with exactly these (signatures mixin-ignores-stop-on-ladder -- "
               "fixed finding, 357b521 -- and mixin-direct).  "
               "Tested only (correspondence + oracle, no theorem): that a reading raises only where a declared rule cannot be applied "
-              "(oracle signature unexpected-error), that a row yields None only when its id values are all None (spurious-none), the "
-              "incl_ws prefix (not modelled).  Theorems are about the Gallina model; its agreement with ak/xlsread.py is checked per "
-              "run, not proved.")
+              "(oracle signature unexpected-error), that a row yields None only when its id values are all None (spurious-none), "
+              "logic_id = the id attribute values (logic-id), the map entry points (map-reading).  The ladder theorems for one rule set "
+              "hold for any set of known names (read_table_k).  Theorems are about the Gallina model; its agreement with "
+              "ak/xlsread.py is checked per run, not proved.")
 LEVEL_NOTE = ("Trusted: Coq kernel + vm_compute; fidelity of the hand model (checked by correspondence, not proved); "
               "python str/==/sorting semantics mirrored in the model; the ast extractor and harness.")
 DESIGN_REF = "DESIGN.md section 8, C18"
